@@ -8,7 +8,10 @@ B32 = [0x0, 0x1, 0x41, 0xD7FF, 0xD800, 0xDFFF, 0xFFFF, 0x10000, 0x10FFFF, 0x1100
 SCAL = [0x1, 0x41, 0x7F, 0x80, 0x7FF, 0x800, 0x1000, 0x103A, 0xD7FF, 0xE000, 0xFFFD, 0xFFFF, 0x10000, 0x1F600, 0x10FFFF]
 BAD8 = [[0xC0, 0x80], [0xC1, 0xBF], [0xE0, 0x80, 0x80], [0xE0, 0x9F, 0xBF], [0xF0, 0x80, 0x80, 0x80], [0xF0, 0x8F, 0xBF, 0xBF],
         [0xF4, 0x90, 0x80, 0x80], [0xF7, 0xBF, 0xBF, 0xBF], [0xFF, 0xBF, 0xBF, 0xBF], [0x80], [0xBF], [0xC2, 0x41], [0xE1, 0x80, 0x41],
-        [0xF1, 0x80, 0x80, 0x41], [0xE1, 0x41], [0xF1, 0x41], [0xF1, 0x80, 0x41], [0xC2, 0xC2], [0xF8, 0x88, 0x80, 0x80]]
+        [0xF1, 0x80, 0x80, 0x41], [0xE1, 0x41], [0xF1, 0x41], [0xF1, 0x80, 0x41], [0xC2, 0xC2], [0xF8, 0x88, 0x80, 0x80],
+        # leads F5..FD with continuation bytes that would make a scalar below 0x110000 if the lead's extra bits were dropped; surrogates
+        [0xF5, 0x80, 0x80, 0x80], [0xF8, 0x90, 0x80, 0x80], [0xF9, 0x80, 0x80, 0x80], [0xFA, 0xA0, 0x80, 0x80], [0xFB, 0xBF, 0xBF, 0xBF],
+        [0xFC, 0x8F, 0xBF, 0xBF], [0xFC, 0x90, 0x80, 0x80], [0xFD, 0x80, 0x80, 0x80], [0xFE, 0x80, 0x80, 0x80], [0xED, 0xA0, 0x80], [0xED, 0xBF, 0xBF]]
 W = {8: 2, 16: 4, 32: 8}
 
 
